@@ -333,6 +333,18 @@ def prove(hyps, goal, timeout_ms=20000, extra_axioms=(), free_ufs_ok=False, ufs=
             return Result('refuted', model=mm, backend='z3+repair', seconds=time.time() - t0,
                           detail='model re-solved with the transcendental applications pinned to 1e-25 enclosures of '
                                  'their true values')
+        if free_ufs_ok or not has_uf:
+            fm = falsify(hyps + list(extra_axioms), goal, seeds=[env])
+            if fm is not None:
+                return Result('refuted', model=fm, backend='z3+falsifier', seconds=time.time() - t0,
+                              detail='concrete counter-model found by numeric search (true transcendental functions, '
+                                     'uninterpreted applications functionally consistent)')
+        if free_ufs_ok:
+            dm = descent_refute(hyps + list(extra_axioms), goal, timeout_ms=min(timeout_ms, 10000))
+            if dm is not None:
+                return Result('refuted', model=dm, backend='z3+descent', seconds=time.time() - t0,
+                              detail='the two sides differ in one argument chain; values found numerically for the innermost '
+                                     'differing pair, then the whole query re-solved with them pinned')
         return Result('unknown', model={'env': env}, backend='z3', seconds=dt,
                       detail='sat under abstraction of transcendental functions; model not confirmed numerically')
     # unknown -> cvc5
@@ -345,62 +357,74 @@ def prove(hyps, goal, timeout_ms=20000, extra_axioms=(), free_ufs_ok=False, ufs=
 
 
 def _repair(z3, solver, m, em, universe, timeout_ms):
-    """model repair: fix the argument of every transcendental application to its value in the model, replace the
-    abstract value of the application by a tight enclosure of the TRUE value there, and re-solve. A model of the
-    strengthened query is a genuine counterexample (up to the 1e-25 enclosures)."""
+    """model repair: keep the model's values of the variables and uninterpreted applications that occur inside
+    transcendental applications, recompute every transcendental application from them with the TRUE functions, pin
+    both (values exactly, true function values to 1e-25 enclosures) and re-solve. A model of the strengthened query is
+    a genuine counterexample (up to the enclosures)."""
     import mpmath
     apps = [t for t in universe if t.op in TRANSC]
-    if not apps or len(apps) > 60:
+    if not apps or len(apps) > 80:
         return None
+    inside = set()
+    for t in apps:
+        for a in t.args:
+            ir.subterms(a, inside)
+    leaves = [t for t in inside if t.op in ('var', 'uf') and t.sort in ('R', 'I')]
     old = mpmath.mp.dps
     mpmath.mp.dps = 40
+    pushed = False
     try:
-        solver.push()
-        for t in apps:
-            vals = []
-            for a in t.args:
-                v = m.eval(em(a), model_completion=True)
-                if z3.is_algebraic_value(v):
-                    v = v.approx(30)
-                if not (z3.is_rational_value(v) or z3.is_int_value(v)):
-                    solver.pop()
+        val = {}
+        for t in leaves:
+            v = m.eval(em(t), model_completion=True)
+            if z3.is_algebraic_value(v):
+                v = v.approx(30)
+            if z3.is_int_value(v):
+                fr = Fraction(v.as_long())
+            elif z3.is_rational_value(v):
+                fr = Fraction(v.as_fraction())
+            else:
+                return None
+            val[t] = (fr, mpmath.mpf(fr.numerator) / fr.denominator)
+        num = {t: v[1] for t, v in val.items()}
+        order = _topo(apps)
+        for t in order:
+            if t in num:
+                continue
+            if t.op == 'const':
+                c = t.args[0]
+                if t.sort in ('R', 'I') and not isinstance(c, str):
+                    num[t] = mpmath.mpf(Fraction(c).numerator) / Fraction(c).denominator
+                elif isinstance(c, str) and t.sort == 'R':
                     return None
-                vals.append(Fraction(v.as_long()) if z3.is_int_value(v) else Fraction(v.as_fraction()))
-            x = [mpmath.mpf(v.numerator) / v.denominator for v in vals]
-            try:
-                if t.op == 'exp':
-                    y = mpmath.exp(x[0])
-                elif t.op == 'log':
-                    if x[0] <= 0:
-                        solver.pop()
-                        return None
-                    y = mpmath.log(x[0])
-                elif t.op == 'sqrt':
-                    if x[0] < 0:
-                        solver.pop()
-                        return None
-                    y = mpmath.sqrt(x[0])
-                elif t.op == 'pow':
-                    if x[0] <= 0 and not (vals[1].denominator == 1 and (x[0] != 0 or vals[1] > 0)):
-                        solver.pop()
-                        return None
-                    y = mpmath.power(x[0], x[1])
-                elif t.op == 'ndtr':
-                    y = mpmath.ncdf(x[0])
                 else:
-                    solver.pop()
+                    num[t] = c
+            elif t.op in ('var', 'uf'):
+                if t.sort == 'B':
+                    num[t] = z3.is_true(m.eval(em(t), model_completion=True))
+                elif t.sort in ('U', 'S'):
+                    num[t] = ('tok', id(t))              # opaque (only ever an argument of an uninterpreted application)
+                else:
                     return None
-            except Exception:
+            else:
+                try:
+                    num[t] = _eval_op(t, [num[a] for a in t.args], mpmath)
+                except (ir.EvalError, KeyError, TypeError, ZeroDivisionError, ValueError, OverflowError):
+                    return None
+                if num[t] is None:
+                    return None
+        solver.push()
+        pushed = True
+        for t, (fr, _x) in val.items():
+            solver.add(em.real(em(t)) == z3.RealVal(str(fr)))
+        for t in apps:
+            y = num[t]
+            if not isinstance(y, mpmath.mpf) or not mpmath.isfinite(y) or abs(y) > mpmath.mpf(10) ** 60:
                 solver.pop()
                 return None
-            if not mpmath.isfinite(y) or abs(y) > mpmath.mpf(10) ** 60:
-                solver.pop()
-                return None
-            eps = abs(y) * mpmath.mpf(10) ** -25 + mpmath.mpf(10) ** -40
+            eps = abs(y) * mpmath.mpf(10) ** -25 + mpmath.mpf(10) ** -38
             lo = Fraction(str(mpmath.nstr(y - eps, 38, strip_zeros=False)))
             hi = Fraction(str(mpmath.nstr(y + eps, 38, strip_zeros=False)))
-            for a, v in zip(t.args, vals):
-                solver.add(em.real(em(a)) == z3.RealVal(str(v)))
             solver.add(em(t) >= z3.RealVal(str(lo)), em(t) <= z3.RealVal(str(hi)))
         solver.set('timeout', int(min(timeout_ms, 10000)))
         r = solver.check()
@@ -408,10 +432,11 @@ def _repair(z3, solver, m, em, universe, timeout_ms):
         solver.pop()
         return out
     except Exception:
-        try:
-            solver.pop()
-        except Exception:
-            pass
+        if pushed:
+            try:
+                solver.pop()
+            except Exception:
+                pass
         return None
     finally:
         mpmath.mp.dps = old
@@ -460,3 +485,333 @@ def satisfiable(formulas, timeout_ms=5000):
     if r == z3.unsat:
         return False, None
     return None, None
+
+
+# ------------------------------------------------------------------------------------------------
+# numeric falsifier: a search for a concrete counter-model when the solver only has an abstract one
+# ------------------------------------------------------------------------------------------------
+
+def falsify(hyps, goal, samples=300, seed=0, seeds=()):
+    """Search for an assignment under which every hypothesis evaluates to True and the goal to False, with the TRUE
+    exp/log/pow/sqrt/Phi and with every uninterpreted application given an arbitrary but functionally consistent
+    value (same argument values => same value). A hit is a genuine counter-model of  hyps => goal."""
+    import random
+    import mpmath
+    rnd = random.Random(seed)
+    formulas = list(hyps) + [goal]
+    universe = set()
+    for f in formulas:
+        ir.subterms(f, universe)
+    order = _topo(formulas)
+    old = mpmath.mp.dps
+    mpmath.mp.dps = 40
+
+    def draw(sort, name=''):
+        if sort == 'B':
+            return rnd.random() < 0.5
+        if sort == 'I':
+            return mpmath.mpf(rnd.choice([0, 1, 1, 2, 2, 3, 5, 17]))
+        if sort in ('U', 'S'):
+            return ('tok', rnd.getrandbits(48))
+        k = rnd.random()
+        if k < 0.35:
+            return mpmath.mpf(rnd.gauss(0, 1))
+        if k < 0.6:
+            return mpmath.mpf(rnd.uniform(0, 1))
+        if k < 0.8:
+            return mpmath.mpf(rnd.gauss(0, 12))
+        if k < 0.9:
+            return mpmath.mpf(rnd.choice([0, 1, -1, 0.5, 2, 1e-9, -40, 40, 7.5, -7.5]))
+        return mpmath.mpf(rnd.uniform(-3, 3)) * 10 ** rnd.randint(-3, 3)
+
+    try:
+        for trial in range(samples):
+            val = {}
+            table = {}
+            bad = False
+            hint = seeds[trial] if trial < len(seeds) else {}
+            for t in order:
+                try:
+                    if t.op == 'const':
+                        v = t.args[0]
+                        if t.sort in ('R', 'I') and not isinstance(v, str):
+                            val[t] = mpmath.mpf(Fraction(v).numerator) / Fraction(v).denominator
+                        elif isinstance(v, str) and t.sort == 'R':
+                            val[t] = {'inf': mpmath.inf, '-inf': -mpmath.inf, 'nan': mpmath.nan}[v]
+                        else:
+                            val[t] = v
+                    elif t.op == 'var':
+                        hv = hint.get(t.args[0])
+                        if hv is not None and t.sort in ('R', 'I'):
+                            val[t] = mpmath.mpf(Fraction(hv).numerator) / Fraction(hv).denominator \
+                                if isinstance(hv, (Fraction, int)) else mpmath.mpf(hv)
+                        elif hv is not None and t.sort == 'B':
+                            val[t] = bool(hv)
+                        else:
+                            val[t] = draw(t.sort, t.args[0])
+                    elif t.op == 'uf':
+                        key = (t.args[0], tuple(_key(val[a]) for a in t.args[1:]))
+                        if key not in table:
+                            table[key] = draw(t.sort, t.args[0])
+                        val[t] = table[key]
+                    else:
+                        val[t] = _eval_op(t, [val[a] for a in t.args], mpmath)
+                except (ir.EvalError, ZeroDivisionError, ValueError, OverflowError, TypeError):
+                    bad = True
+                    break
+            if bad:
+                continue
+            if all(val[h] is True for h in hyps) and val[goal] is False:
+                env = {t.args[0]: (float(v) if isinstance(v, mpmath.mpf) else v) for t, v in val.items() if t.op == 'var'}
+                ufv = {}
+                for t, v in val.items():
+                    if t.op == 'uf' and t.sort in ('R', 'I', 'B'):
+                        ufv.setdefault(t.args[0], []).append(float(v) if isinstance(v, mpmath.mpf) else v)
+                return {'env': env, 'uf_values': {k: v[:4] for k, v in ufv.items()}, 'trial': trial}
+        return None
+    finally:
+        mpmath.mp.dps = old
+
+
+def _key(v):
+    import mpmath
+    if isinstance(v, mpmath.mpf):
+        return ('n', mpmath.nstr(v, 25))
+    return v
+
+
+def _topo(formulas):
+    seen, order = set(), []
+    for f in formulas:
+        stack = [(f, False)]
+        while stack:
+            t, done = stack.pop()
+            if done:
+                if t not in seen:
+                    seen.add(t)
+                    order.append(t)
+                continue
+            if t in seen:
+                continue
+            stack.append((t, True))
+            for a in t.args:
+                if isinstance(a, T) and a not in seen:
+                    stack.append((a, False))
+    return order
+
+
+def _eval_op(t, a, mpmath):
+    op = t.op
+    tol = mpmath.mpf(10) ** -25
+
+    def cmp_(x, y):
+        if isinstance(x, mpmath.mpf) or isinstance(y, mpmath.mpf):
+            d = x - y
+            if abs(d) <= tol * max(1, abs(x), abs(y)):
+                return 0 if x == y else None
+            return -1 if d < 0 else 1
+        return 0 if x == y else 2
+    if op == 'add':
+        return mpmath.fsum(a)
+    if op == 'mul':
+        r = mpmath.mpf(1)
+        for x in a:
+            r *= x
+        return r
+    if op == 'div':
+        if a[1] == 0:
+            raise ir.EvalError('div0')
+        return a[0] / a[1]
+    if op == 'pow':
+        n = ir._num(t.args[1])
+        if n is not None and n.denominator == 1:
+            if a[0] == 0 and n < 0:
+                raise ir.EvalError('0**neg')
+            return a[0] ** int(n)
+        if a[0] < 0 or (a[0] == 0 and a[1] <= 0):
+            raise ir.EvalError('pow domain')
+        return mpmath.power(a[0], a[1])
+    if op == 'exp':
+        if a[0] > 5000:
+            raise ir.EvalError('overflow')
+        return mpmath.exp(a[0])
+    if op == 'log':
+        if a[0] <= 0:
+            raise ir.EvalError('log domain')
+        return mpmath.log(a[0])
+    if op == 'sqrt':
+        if a[0] < 0:
+            raise ir.EvalError('sqrt domain')
+        return mpmath.sqrt(a[0])
+    if op == 'abs':
+        return abs(a[0])
+    if op == 'sign':
+        return mpmath.mpf((a[0] > 0) - (a[0] < 0))
+    if op == 'min':
+        return min(a)
+    if op == 'max':
+        return max(a)
+    if op == 'ndtr':
+        return mpmath.ncdf(a[0])
+    if op == 'ndtri':
+        if not (0 < a[0] < 1):
+            raise ir.EvalError('ndtri domain')
+        return mpmath.sqrt(2) * mpmath.erfinv(2 * a[0] - 1)
+    if op == 'ite':
+        if a[0] is None:
+            raise ir.EvalError('undetermined')
+        return a[1] if a[0] else a[2]
+    if op == 'not':
+        return None if a[0] is None else (not a[0])
+    if op == 'and':
+        if any(x is False for x in a):
+            return False
+        return True if all(x is True for x in a) else None
+    if op == 'or':
+        if any(x is True for x in a):
+            return True
+        return False if all(x is False for x in a) else None
+    if op in ('lt', 'le', 'eq'):
+        c = cmp_(a[0], a[1])
+        if c is None:
+            return None
+        if op == 'eq':
+            return c == 0
+        if c == 2:
+            raise ir.EvalError('order of non-numbers')
+        return (c < 0) if op == 'lt' else (c <= 0)
+    raise ir.EvalError('op ' + op)
+
+
+# ------------------------------------------------------------------------------------------------
+# refutation of data-flow equalities by descent to the first differing argument
+# ------------------------------------------------------------------------------------------------
+
+def _descend(a, b, depth=0):
+    """a != b syntactically. While both are applications of the same (uninterpreted or injective-looking) head with
+    exactly one differing argument position, go into it. Returns the innermost differing pair."""
+    while depth < 40 and a.op == b.op and len(a.args) == len(b.args) and a.op in ('uf', 'ndtri', 'ndtr', 'exp', 'log'):
+        if a.op == 'uf' and a.args[0] != b.args[0]:
+            break
+        diff = [(x, y) for x, y in zip(a.args, b.args) if isinstance(x, T) and x is not y]
+        if len(diff) != 1:
+            break
+        a, b = diff[0]
+        depth += 1
+    return a, b
+
+
+def descent_refute(hyps, goal, timeout_ms=10000, samples=400, seed=0):
+    """goal: an equality A == B. Find values of the symbols of the innermost differing pair (a, b) with a != b under
+    the true functions, then ask z3 for a model of  hyps /\\ not goal  with those values pinned (transcendental
+    applications pinned to enclosures of their true values). Sound: a returned model is a model of the pinned,
+    hence of the original, query; uninterpreted functions stay free."""
+    import random
+    import mpmath
+    import z3
+    if goal.op != 'eq' or goal.args[0].sort not in ('R', 'I', 'U'):
+        return None
+    a, b = _descend(goal.args[0], goal.args[1])
+    if a.sort not in ('R', 'I'):
+        return None
+    pair = ir.ne(a, b)
+    sub = set()
+    ir.subterms(pair, sub)
+    leaf_syms = {t for t in sub if t.op == 'var' or t.op == 'uf'}
+    # hypotheses that only talk about symbols of the pair are respected by the local search
+    local = []
+    for h in hyps:
+        hs = set()
+        ir.subterms(h, hs)
+        if all((t in leaf_syms) for t in hs if t.op in ('var', 'uf')):
+            local.append(h)
+    order = _topo([pair] + local)
+    rnd = random.Random(seed)
+    consts = sorted({abs(float(ir._num(t))) for t in order if t.op == 'const' and ir._num(t) is not None and
+                     abs(ir._num(t)) > 4})
+    old = mpmath.mp.dps
+    mpmath.mp.dps = 40
+    witness = None
+    try:
+        for trial in range(samples):
+            val, table, bad = {}, {}, False
+            for t in order:
+                try:
+                    if t.op == 'const':
+                        v = t.args[0]
+                        if t.sort in ('R', 'I') and not isinstance(v, str):
+                            val[t] = mpmath.mpf(Fraction(v).numerator) / Fraction(v).denominator
+                        elif isinstance(v, str) and t.sort == 'R':
+                            val[t] = {'inf': mpmath.inf, '-inf': -mpmath.inf, 'nan': mpmath.nan}[v]
+                        else:
+                            val[t] = v
+                    elif t.op == 'var' or t.op == 'uf':
+                        if t.op == 'uf':
+                            key = (t.args[0], tuple(_key(val[x]) for x in t.args[1:] if isinstance(x, T)))
+                            if key in table:
+                                val[t] = table[key]
+                                continue
+                        if t.sort == 'B':
+                            v = rnd.random() < 0.5
+                        elif t.sort == 'I':
+                            v = mpmath.mpf(rnd.choice([1, 2, 3, 5]))
+                        elif t.sort in ('U', 'S'):
+                            v = ('tok', rnd.getrandbits(40))
+                        else:
+                            k = rnd.random()
+                            if consts and k > 0.8:
+                                # around the large constants the formulas compare against (e.g. 1/eps thresholds)
+                                v = mpmath.mpf(rnd.choice(consts)) * rnd.choice([0.5, 2, 4]) * rnd.choice([1, 1, -1])
+                            else:
+                                v = mpmath.mpf(rnd.gauss(0, 1)) if k < 0.3 else (mpmath.mpf(rnd.uniform(0.05, 3)) if k < 0.6
+                                                                                else mpmath.mpf(rnd.gauss(0, 30)))
+                            v = mpmath.mpf(round(float(v) * 64)) / 64          # dyadic: exactly representable for z3
+                        val[t] = v
+                        if t.op == 'uf':
+                            table[key] = v
+                    else:
+                        val[t] = _eval_op(t, [val[x] for x in t.args], mpmath)
+                except (ir.EvalError, ZeroDivisionError, ValueError, OverflowError, TypeError):
+                    bad = True
+                    break
+            if bad or val[pair] is not True or not all(val[h] is True for h in local):
+                continue
+            witness = val
+            break
+        if witness is None:
+            return None
+        # pin and re-solve
+        em = ir.Z3Emitter()
+        s = z3.Solver()
+        s.set('timeout', int(timeout_ms))
+        formulas = list(hyps) + [goal]
+        for f in hyps:
+            s.add(em(f))
+        s.add(z3.Not(em(goal)))
+        for ax in ground_axioms(formulas):
+            s.add(em(ax))
+        for t in leaf_syms:
+            v = witness.get(t)
+            if isinstance(v, mpmath.mpf) and t.sort in ('R', 'I'):
+                fr = Fraction(str(mpmath.nstr(v, 30, strip_zeros=False)))
+                s.add(em.real(em(t)) == z3.RealVal(str(fr)))
+            elif isinstance(v, bool):
+                s.add(em(t) == z3.BoolVal(v))
+        for t in sub:
+            if t.op in TRANSC and isinstance(witness.get(t), mpmath.mpf) and mpmath.isfinite(witness[t]):
+                y = witness[t]
+                eps = abs(y) * mpmath.mpf(10) ** -25 + mpmath.mpf(10) ** -38
+                lo = Fraction(str(mpmath.nstr(y - eps, 36, strip_zeros=False)))
+                hi = Fraction(str(mpmath.nstr(y + eps, 36, strip_zeros=False)))
+                s.add(em(t) >= z3.RealVal(str(lo)), em(t) <= z3.RealVal(str(hi)))
+        if s.check() != z3.sat:
+            return None
+        m = s.model()
+        allv = set()
+        for f in formulas:
+            allv |= ir.free_vars(f)
+        env = _model_env(z3, m, em, allv)
+        return {'env': env, 'differing_pair': [ir.show(a)[:300], ir.show(b)[:300]],
+                'pair_values': [float(witness[a]), float(witness[b])]}
+    finally:
+        mpmath.mp.dps = old
